@@ -608,9 +608,18 @@ class Rmcp(object):
         header.cmdid = cmdid
 
         # Bridge message
+        bridge_header = None
         if target.routing:
             tx_data = encode_bridged_message(target.routing, header, payload,
                                              self.next_sequence_number)
+            if len(target.routing) > 1:
+                # the outermost Send Message request, whose response carries
+                # (or announces) the reply
+                bridge_header = IpmbHeaderReq()
+                bridge_header.netfn = constants.NETFN_APP
+                bridge_header.rs_lun = 0
+                bridge_header.rq_seq = header.rq_seq
+                bridge_header.cmdid = constants.CMDID_SEND_MESSAGE
         else:
             tx_data = encode_ipmb_msg(header, payload)
 
@@ -628,8 +637,14 @@ class Rmcp(object):
                         else:
                             rx_data = self._receive_ipmi_msg(self.ignore_sdu_length)
 
-                        if array('B', rx_data)[5] == constants.CMDID_SEND_MESSAGE:
-                            rx_data = decode_bridged_message(rx_data)
+                        # only the intact response to the Send Message of
+                        # this request is unwrapped, any other frame is left
+                        # to the reply filter
+                        if bridge_header is not None and \
+                                rx_filter(bridge_header, rx_data,
+                                          rq_seq=not self.ignore_rq_seq):
+                            rx_data = decode_bridged_message(rx_data,
+                                                             verify=True)
                             if not rx_data:
                                 # the forwarded reply is expected in the next packet
                                 # so we do not increment the retry counter as
